@@ -106,6 +106,7 @@ class Folder:
         self.effects = []
         self.helpers = dict(helpers or {})       # name -> ast.FunctionDef of pure local / module-level helpers
         self.methods = dict(methods or {})       # name -> ast.FunctionDef of methods reachable as self.<name>(..)
+        self.yields = []
         self.opaque_constructors = False
         self.globals = {}                        # names visible in every folded function (module-level bindings supplied by the rule)
         self.module_functions = {}               # name -> ast.FunctionDef of module-level functions that may be folded when called         # CapitalisedName(..) of an unknown class gives an Opaque object
@@ -133,6 +134,10 @@ class Folder:
                 else:
                     raise Unknown("missing argument %s" % p_)
         self.env = env
+        is_gen = any(isinstance(x, (ast.Yield, ast.YieldFrom)) for x in ast.walk(d))
+        saved_y = self.yields
+        if is_gen:
+            self.yields = []
         try:
             self.run(d.body)
             ret = None
@@ -140,7 +145,9 @@ class Folder:
             ret = r.value
         finally:
             self.env = saved
-        return ret
+            if is_gen:
+                ret_y, self.yields = self.yields, saved_y
+        return ret_y if is_gen else ret
 
     # ------------------------------------------------------------------ expressions
     def ev(self, e):
@@ -282,6 +289,12 @@ class Folder:
             return set(out) if isinstance(e, ast.SetComp) else out
         if isinstance(e, ast.Call):
             return self.call(e)
+        if isinstance(e, ast.Yield):
+            self.yields.append(self.ev(e.value) if e.value is not None else None)
+            return None
+        if isinstance(e, ast.YieldFrom):
+            self.yields.extend(list(self.ev(e.value)))
+            return None
         raise Unknown("cannot fold %s" % _name(e)[:60])
 
     def call(self, c):
@@ -304,6 +317,16 @@ class Folder:
             return self.call_function(self.methods[c.func.attr], [self.env.get("self")] + args, kw)
         if isinstance(c.func, ast.Name) and c.func.id in self.module_functions and c.func.id not in self.env:
             return self.call_function(self.module_functions[c.func.id], args, kw)
+        if isinstance(c.func, ast.Name) and c.func.id in self.helpers and \
+                any(isinstance(x, (ast.Yield, ast.YieldFrom)) for x in ast.walk(self.helpers[c.func.id])):
+            d = self.helpers[c.func.id]
+            outer = dict(self.env)
+            saved_g = self.globals
+            self.globals = dict(saved_g, **outer)          # free names of the closure see the caller's bindings
+            try:
+                return self.call_function(d, args, kw)
+            finally:
+                self.globals = saved_g
         if isinstance(c.func, ast.Name) and c.func.id in self.helpers:
             d = self.helpers[c.func.id]
             saved = dict(self.env)
